@@ -887,7 +887,7 @@ SUBS = [
     Sub("chains", exec_chain, strategy=chain_cases(), quick=12000, thorough=1_280_000, shards_quick=16),
     Sub("chains_long", exec_chain, strategy=chain_cases(max_len=200, max_depth=9), quick=1600, thorough=160_000, shards_quick=16),
     Sub("methods", exec_methods, strategy=chain_cases(max_len=24, max_depth=4, methods=True), quick=1600, thorough=160_000, shards_quick=16),
-    Sub("dunders", exec_dunders, strategy=chain_cases(max_len=24, max_depth=4, dunders=True), quick=3200, thorough=320_000, shards_quick=16),
+    Sub("dunders", exec_dunders, strategy=chain_cases(max_len=24, max_depth=4, dunders=True), quick=2400, thorough=240_000, shards_quick=16),
 ]
 
 KNOWN_PREDICATES = {}
